@@ -145,6 +145,32 @@ fn one_program(cx: &mut Ctx, i: u64) {
         bad2.push((name.clone(), to_sim_val(&random_val(&bt2, &mut rng), &bt2)));
         variants.push((format!("{name} of other type {}", render_ty(&bt2)), arguments(&bad2), false));
     }
+    // arguments the program has no parameter for change nothing: same bytes as the exact map,
+    // however many there are and whatever their names (several maps = several hash orders)
+    if let Outcome::Ok(c0) = instantiate(&tpl, &exact, false) {
+        if let Outcome::Ok(base) = commit(&c0) {
+            for k in 0..4usize {
+                let mut sim = to_sim_map(&p.args, &p.params);
+                for j in 0..=k {
+                    let nm = ["ZZ_extra", "A", "unused_1", "Q9", "m"][(j + k) % 5].to_string();
+                    if p.params.iter().all(|(n, _)| *n != nm) && sim.iter().all(|(n, _)| *n != nm) {
+                        sim.push((nm, to_sim_val(&Val::u(32, (j * 7 + 1) as u128), &Ty::U(32))));
+                    }
+                }
+                cx.report.evaluations += 1;
+                let same = match instantiate(&tpl, &arguments(&sim), false) {
+                    Outcome::Ok(c) => matches!(commit(&c), Outcome::Ok(info) if info.bytes == base.bytes),
+                    _ => false,
+                };
+                if !same {
+                    cx.report.violation(json!({"kind": "extra-arguments", "what": format!("instantiating with {} superfluous argument(s) does not give the program of the exact argument map", k + 1),
+                        "program": text, "arguments": wmap_json(&p.args, &p.params), "signature": format!("c12-extra:{key:016x}")}));
+                    return;
+                }
+                cx.report.count("extra_arguments_same_bytes", 1);
+            }
+        }
+    }
     for (what, a, should) in &variants {
         cx.report.evaluations += 1;
         let r = instantiate(&tpl, a, false);
